@@ -96,6 +96,11 @@ CHECKS = {
         "note": "Trusted: SHA-256, hex and base64; the harness's independent rendering of the documented formula.",
         "technique": TLA + "summary specification; generated file sets replayed in every listing order, recorded hashes trace-validated",
     },
+    "C07": {
+        "text": "Bounded-exhaustive: Note.tla models Sign and Open at line level with signatures as facts; TLC checks the sign/open round trip with the documented partition and, over every single structural mutation of every signed message, that a verified signature was made by a known key over exactly the returned text and that the text never changes; all messages (89 k quick) are made concrete with real Ed25519 keys, an ambiguous key pair and a lying Verifiers, behind recording verifiers, and opened by note.Open; a byte-level mutation sweep is abstracted to lines independently and validated by NoteTrace, with the property-level flag (every listed signature was accepted by its verifier over the returned text) taken from the recorders.",
+        "note": "Trusted: Ed25519, base64, the harness's independent line splitter used for abstraction. Bounds: text shapes, key sets, one mutation per message in the exhaustive part.",
+        "technique": TLA + "line-level note specification; spec-generated messages made concrete and opened by the code; recorded byte-mutated opens trace-validated",
+    },
 }
 
 NOT_APPLICABLE = {}
